@@ -42,7 +42,7 @@ def compare_buses(a, b, bus_map, tol=TOL):
         vm2, va2 = b[new]
         if math.isnan(vm) and math.isnan(vm2):
             continue
-        if math.isnan(vm) != math.isnan(vm2) or abs(vm - vm2) > tol or abs(va - va2) > tol * 100:
+        if math.isnan(vm) != math.isnan(vm2) or abs(vm - vm2) > tol or abs((va - va2 + 180.) % 360. - 180.) > tol * 100:
             return f"bus {old} (now {new}): vm_pu {vm!r} -> {vm2!r}, va_degree {va!r} -> {va2!r}"
     return None
 
@@ -56,7 +56,7 @@ def angle_shift_only(net, before, after):
         vm2, a2 = after.get(b, (float("nan"), float("nan")))
         if math.isnan(vm) and math.isnan(vm2):
             continue
-        if math.isnan(vm) != math.isnan(vm2) or abs(vm - vm2) > TOL or abs((a - va) - a2) > 1e-4:
+        if math.isnan(vm) != math.isnan(vm2) or abs(vm - vm2) > TOL or abs(((a - va) - a2 + 180.) % 360. - 180.) > 1e-4:
             return False
     return True
 
